@@ -95,3 +95,8 @@
 ;@heap curErr G_io_ErrN
 (define-fun curFlag ((x Bool)) Bool x)
 ;@heap curFlag G_utils_HadRuntimeError
+; variants that ignore the array heap (constructs that build a private argument/element list between events)
+(define-fun followsX ((aMD (Array Int (Array Int (Array Str Bool)))) (aMV (Array Int (Array Int (Array Str Val)))) (aMC (Array Int (Array Int Int))) (aOut (Array Int Int)) (aErr (Array Int Int)) (aFlag (Array Int Bool)) (bMD (Array Int (Array Int (Array Str Bool)))) (bMV (Array Int (Array Int (Array Str Val)))) (bMC (Array Int (Array Int Int))) (bOut (Array Int Int)) (bErr (Array Int Int)) (bFlag (Array Int Bool)) (k Int)) Bool (and (= (select aMD k) (select bMD (- k 1))) (= (select aMV k) (select bMV (- k 1))) (= (select aMC k) (select bMC (- k 1))) (= (select aOut k) (select bOut (- k 1))) (= (select aErr k) (select bErr (- k 1))) (= (select aFlag k) (select bFlag (- k 1)))))
+;@heap followsX LOG_preMD LOG_preMV LOG_preMC LOG_preOut LOG_preErr LOG_preFlag LOG_postMD LOG_postMV LOG_postMC LOG_postOut LOG_postErr LOG_postFlag
+(define-fun stateIsPostX ((cMD (Array Int (Array Str Bool))) (cMV (Array Int (Array Str Val))) (cMC (Array Int Int)) (cOut Int) (cErr Int) (cFlag Bool) (lMD (Array Int (Array Int (Array Str Bool)))) (lMV (Array Int (Array Int (Array Str Val)))) (lMC (Array Int (Array Int Int))) (lOut (Array Int Int)) (lErr (Array Int Int)) (lFlag (Array Int Bool)) (k Int)) Bool (and (= cMD (select lMD k)) (= cMV (select lMV k)) (= cMC (select lMC k)) (= cOut (select lOut k)) (= cErr (select lErr k)) (= cFlag (select lFlag k))))
+;@heap stateIsPostX MD_Str_Val MV_Str_Val MC_Str_Val G_io_OutN G_io_ErrN G_utils_HadRuntimeError LOG_postMD LOG_postMV LOG_postMC LOG_postOut LOG_postErr LOG_postFlag
